@@ -7,6 +7,7 @@ pub mod corpus_all;
 pub mod c03;
 pub mod c04;
 pub mod c05;
+pub mod c06;
 pub mod c07;
 pub mod c08;
 pub mod c10;
@@ -14,13 +15,13 @@ pub mod c12;
 pub mod selftest;
 
 pub fn dispatch(id: &str, tier: Tier, replay: Option<&str>, rest: &[String]) -> i32 {
-    let _ = rest;
     match id {
         "C01" => c01::run(tier, replay),
         "C02" => c02::run(tier, replay),
         "C03" => c03::run(tier, replay),
         "C04" => c04::run(tier, replay),
         "C05" => c05::run(tier, replay),
+        "C06" => c06::run(tier, replay, rest),
         "C07" => c07::run(tier, replay),
         "C08" => c08::run(tier, replay),
         "C10" => c10::run(tier, replay),
